@@ -373,7 +373,9 @@ void ezc3d::c3d::point(const std::string &name){
             dummy_frames.push_back(frame);
         point(dummy_frames);
     } else {
-        updateParameters({name});
+        std::string trimmedName(name); // stored under the same name a Point would have
+        ezc3d::removeTrailingSpaces(trimmedName);
+        updateParameters({trimmedName});
     }
 }
 
@@ -422,7 +424,9 @@ void ezc3d::c3d::analog(const std::string &name)
             dummy_frames.push_back(frame);
         analog(dummy_frames);
     } else {
-        updateParameters({}, {name});
+        std::string trimmedName(name); // stored under the same name a Channel would have
+        ezc3d::removeTrailingSpaces(trimmedName);
+        updateParameters({}, {trimmedName});
     }
 }
 
